@@ -201,6 +201,17 @@ fn run(ctx: &mut Ctx) {
             check_case(ctx, "named", g.ng, &g.rels, k_for(g.ng, tier));
         }
     }
+    // an empty relator (the identity) among the relators changes nothing
+    for g in infinite_groups().into_iter().chain(finite_groups().into_iter()) {
+        if ctx.take() {
+            let mut r1 = g.rels.clone();
+            r1.push(vec![]);
+            check_case(ctx, "empty-relator", g.ng, &r1, k_for(g.ng, tier).min(4));
+            let mut r2 = vec![vec![]];
+            r2.extend(g.rels.iter().cloned());
+            check_case(ctx, "empty-relator", g.ng, &r2, k_for(g.ng, tier).min(4));
+        }
+    }
     for (ng, rel_len, max_rels) in [(2usize, tier.pick(4, 5), 3usize), (3, 3, tier.pick(3, 4))] {
         let classes = cyc_reduced_words(ng, rel_len);
         for p in presentations(&classes, max_rels, true) {
